@@ -142,7 +142,30 @@ r`
 func HarnessC10ThreadsAndSpawnArguments() {
 	a, b := verifrt.Int64(), verifrt.Int64()
 	env := (&scriptEnv{}).addInt("a", a).addInt("b", b)
-	switch verifrt.Choose(5) {
+	switch verifrt.Choose(8) {
+	case 5:
+		// wait() may be called more than once and by more than one goroutine
+		run, _ := runConcurrent(`t := spawn(func(p) { return p + 1 }, a); x := t.wait(); y := t.wait(); x + y`, env)
+		verifrt.Assert(run.stage == "ok", "runs:"+run.stage)
+		if run.stage == "ok" {
+			iv, ok := asInt(run.result)
+			verifrt.Assert(ok && iv == 2*(a+1), "second-wait-returns-the-same-result")
+		}
+	case 6:
+		run, _ := runConcurrent(`t := spawn(func(p) { return p + 1 }, a); u := spawn(func() { return t.wait() }); t.wait() + u.wait()`, env)
+		verifrt.Assert(run.stage == "ok", "runs:"+run.stage)
+		if run.stage == "ok" {
+			iv, ok := asInt(run.result)
+			verifrt.Assert(ok && iv == 2*(a+1), "two-waiters-both-get-the-result")
+		}
+	case 7:
+		// the error a spawned call raised arrives unchanged, also when its text contains '%'
+		run, _ := runConcurrent(`t := spawn(func() { error("50%%d off %%s") }); try(func() { t.wait(); return "no error" }, func(e) { return e.message() })`, env)
+		verifrt.Assert(run.stage == "ok", "runs:"+run.stage)
+		if run.stage == "ok" {
+			sv, ok := run.result.(*object.String)
+			verifrt.Assert(ok && sv.Value() == "50%d off %s", "wait-returns-the-call-error-unchanged")
+		}
 	case 0:
 		run, _ := runConcurrent(`t := spawn(func(p) { return p + 1 }, a); t.wait()`, env)
 		verifrt.Assert(run.stage == "ok", "runs:"+run.stage)
@@ -208,6 +231,49 @@ func HarnessC10ClosedChannels() {
 	case 2:
 		run, _ := runConcurrent(`ch := chan(1); close(ch); ch <- a`, env)
 		verifrt.Assert(run.err != nil && run.stage == "run", "send-on-closed-is-an-error")
+	}
+	verifrt.Reach("done")
+}
+
+
+// HarnessC10NilValues: nil is an ordinary value on a channel and does not end iteration.
+// (Two goroutines ranging over one channel lose/duplicate values on the pinned tree
+// because Next() and Entry() race on Chan.lastReceived inside one VM instruction; the
+// engine interleaves at synchronisation points only and cannot see that, see DESIGN §6.)
+func HarnessC10NilValues() {
+	a := verifrt.Int64()
+	capacity := int64(verifrt.Choose(2))
+	env := (&scriptEnv{}).addInt("a", a).addInt("n", capacity)
+	switch verifrt.Choose(2) {
+	case 0:
+		src := `ch := chan(n)
+go func() { ch <- a; ch <- nil; ch <- 7; ch <- nil; close(ch) }()
+k := 0
+s := 0
+for _, v := range ch { k++; if v != nil { s += v } }
+[k, s]`
+		run, _ := runConcurrent(src, env)
+		verifrt.Assert(run.stage == "ok", "runs:"+run.stage)
+		if run.stage == "ok" {
+			got, ok := listInts(run.result)
+			verifrt.Assert(ok && len(got) == 2 && got[0] == 4, "nil-values-are-delivered-and-do-not-end-iteration")
+			if ok && len(got) == 2 {
+				verifrt.Assert(got[1] == a+7, "values-around-nil-arrive")
+			}
+		}
+	case 1:
+		// nil as the first and the only value
+		src := `ch := chan(n)
+go func() { ch <- nil; close(ch) }()
+k := 0
+for _, v := range ch { k++ }
+k`
+		run, _ := runConcurrent(src, env)
+		verifrt.Assert(run.stage == "ok", "runs:"+run.stage)
+		if run.stage == "ok" {
+			iv, ok := asInt(run.result)
+			verifrt.Assert(ok && iv == 1, "a-single-nil-value-is-delivered")
+		}
 	}
 	verifrt.Reach("done")
 }
